@@ -123,6 +123,34 @@ class FileSplicer:
 
     # ---------------------------------------------------------------- fn level
     def fn_edits(self, it: Item, d: vspec.Dir, key: str, owner: Optional[Item]):
+        """lift one fn; when one of its anchors is lost (or the runner asks for it after Verus rejected a construct inside it) the fn
+        is DEGRADED instead: its body stays unverified (`external_body`), its contract stays in place as an ASSUMED contract so that
+        its callers can still be checked, and the properties it carries are reported undecided - not the whole unit"""
+        n_ed = len(self.ed.e); n_fn = len(self.report['functions']); n_rules = len(self.report['file_rules'])
+        forced = (self.fs.path, key) in getattr(self, 'force_drop', set())
+        if not forced:
+            try:
+                return self._fn_edits_full(it, d, key, owner)
+            except SpliceError as e:
+                reason = str(e)
+                if not (reason.startswith('lost anchor') or reason.startswith('unsupported') or reason.startswith('shape mismatch') or reason.startswith('overlapping')):
+                    raise
+        else:
+            reason = 'Verus rejected a construct inside this function'
+        del self.ed.e[n_ed:]; del self.report['functions'][n_fn:]; del self.report['file_rules'][n_rules:]
+        keep = ('ret', 'spec', 'attr', 'props', 'implicit', 'mutself', 'mutparam', 'sig', 'vis', 'norules')
+        d2 = vspec.Dir(d.word, list(d.args), d.text, d.line, [s for s in d.subs if s.word in keep], d.optional)
+        d2.subs.append(vspec.Dir('attr', [], '    #[verifier::external_body]', d.line))
+        self.degrading = True
+        try:
+            a = self._fn_edits_full(it, d2, key, owner)
+        finally:
+            self.degrading = False
+        self.report['functions'][-1]['dropped'] = reason
+        self.report['file_rules'].append({'file': self.fs.path, 'rule': 'degraded', 'text': 'fn %s left unverified with its contract ASSUMED: %s' % (key, reason)})
+        return a
+
+    def _fn_edits_full(self, it: Item, d: vspec.Dir, key: str, owner: Optional[Item]):
         src = self.src
         an = fn_anatomy(src, it)
         applied = []
@@ -496,6 +524,22 @@ class FileSplicer:
                 if nhit == 0 and not s.optional:
                     raise SpliceError('lost anchor: fn %s has no call of %s(' % (key, fname))
                 if nhit: applied.append('N18')
+            if s.word == 'bytelits':
+                # N10: `X.put_slice(b"ASCII")` -> `{ proof { reveal_strlit("ASCII"); } vx_put_str(X, "ASCII") }` for EVERY ASCII byte-string
+                # literal of the fn (Verus gives byte-string literals no meaning; an ASCII one is the UTF-8 text of the same str literal)
+                for k in find_token_seq(src, it.body_open, it.body_close, ['.', 'put_slice', '(']):
+                    po = k + 2; pc = src.match(po)
+                    if pc == po + 2 and src.t(po + 1).kind == 'str' and src.t(po + 1).text.startswith('b"'):
+                        lit = src.t(po + 1).text[1:]
+                        try:
+                            raw = bytes(lit[1:-1], 'utf-8').decode('unicode_escape')
+                        except Exception:
+                            continue
+                        if any(ord(c_) > 126 or ord(c_) < 32 for c_ in raw): continue
+                        rs = self.postfix_start(k - 1)
+                        recv = src.text_of(rs, k)
+                        self.ed.replace(src.t(rs).start, src.t(pc).end, '{ proof { reveal_strlit(%s); } vx_put_str(%s, %s) }' % (lit, recv, lit))
+                        applied.append('N10')
             if s.word == 'fmtwrite':
                 # N9: every `write!(BUF, "lit{}lit..", ARGS..)` of the fn -> `{ vx_put_str(BUF, "lit"); <putter>(BUF, ARG); ..; vx_fmt_ok() }`
                 # args: one putter kind per placeholder, in order over all write! calls of the fn: str | u64 | usize
@@ -1303,7 +1347,7 @@ class FileSplicer:
         self.report['file_rules'].append({'file': self.fs.path, 'rule': 'N15-ghostfield', 'text': '%s.%s (%d literals)' % (sname, fname, n)})
 
 
-def splice(root: str, spec_paths: List[str], contracts_dir: str, unit: str = '', extra_lifts=()) -> dict:
+def splice(root: str, spec_paths: List[str], contracts_dir: str, unit: str = '', extra_lifts=(), force_drop=()) -> dict:
     report = {'functions': [], 'items': [], 'file_rules': [], 'ghost_clauses': []}
     byfile: Dict[str, vspec.FileSpec] = {}
     for sp in spec_paths:
@@ -1324,7 +1368,9 @@ def splice(root: str, spec_paths: List[str], contracts_dir: str, unit: str = '',
             byfile[path].dirs.append(d)
     report['auto_lifted'] = [{'file': p_, 'fn': k_} for (p_, k_, _) in extra_lifts]
     for path, fs in byfile.items():
-        FileSplicer(root, fs, contracts_dir, report).run()
+        fsp = FileSplicer(root, fs, contracts_dir, report)
+        fsp.force_drop = set(force_drop)
+        fsp.run()
     return report
 
 
